@@ -273,6 +273,115 @@ def lean_texture(t: dict, fact: list[int]) -> list[str]:
             '/-- `_3d_deltas` -/', 'def deltas3d : List (List Int) := ' + tab(t['_3d_deltas']),
             '/-- `_factorialtable` -/', 'def factorialTable : List Nat := ' + lean_list(fact), '']
 
+# ---------------------------------------------------------------------------------------------
+# C15: thinning templates (_thin.cpp) and Euler bit-quad tables (euler.py)
+
+def extract_thin(repo: Path):
+    """the 8 hit-or-miss elements of `_thin.cpp` as built by `fill_data`: for each element, in pass
+    order, the six (d0, d1, required value) triples"""
+    src = (repo / 'mahotas' / '_thin.cpp').read_text()
+    m = re.search(r'const\s+int\s+Element_Size\s*=\s*(\d+)\s*;', src)
+    if not m:
+        raise TranslationError('_thin.cpp: Element_Size not found')
+    esize = int(m.group(1))
+    m = re.search(r'const\s+bool\s+boolvals\[\]\s*=\s*\{([^}]*)\}', src)
+    if not m:
+        raise TranslationError('_thin.cpp: boolvals not found')
+    boolvals = [{'true': True, 'false': False}[t.strip()] for t in m.group(1).split(',') if t.strip()]
+    deltas = {}
+    for name, body in re.findall(r'const\s+npy_intp\s+(\w+)\[\]\s*=\s*\{([^}]*)\}', src):
+        deltas[name] = [int(t.strip().replace('+', '')) for t in body.split(',') if t.strip()]
+    # the semantics of fill_data / match / the deletion loop are anchored textually
+    anchors = [r'elem\.data\[j\]\s*=\s*\(flip\s*\?\s*!\s*boolvals\[j\]\s*:\s*boolvals\[j\]\)',
+               r'elem\.offset\[j\]\s*=\s*coordinates_delta\(array,\s*delta0\[j\],\s*delta1\[j\]\)',
+               r'return\s*\(d0\*PyArray_STRIDE\(array,0\)\s*\+\s*d1\*PyArray_STRIDE\(array,1\)\)/sizeof\(bool\)',
+               r'if\s*\(!\*array\)\s*return\s+false;',
+               r'if\s*\(elem\.data\[i\]\s*!=\s*\*\(array\+elem\.offset\[i\]\)\)\s*return\s+false;',
+               r'if\s*\(\*pb\s*&&\s*\*pa\)\s*\{\s*\*pa\s*=\s*false;\s*any_change\s*=\s*true;']
+    for a in anchors:
+        if not re.search(a, src):
+            raise TranslationError('_thin.cpp: construct no longer matches: ' + a)
+    m = re.search(r'const\s+int\s+Nr_Elements\s*=\s*(\d+)\s*;', src)
+    if not m:
+        raise TranslationError('_thin.cpp: Nr_Elements not found')
+    nelems = int(m.group(1))
+    fills = re.findall(r'fill_data\(array,\s*elems\[(\d+)\],\s*(true|false),\s*(\w+),\s*(\w+)\);', src)
+    if [int(f[0]) for f in fills] != list(range(nelems)):
+        raise TranslationError(f'_thin.cpp: fill_data calls do not cover elems[0..{nelems}) in order')
+    elems = []
+    for _, flip, n0, n1 in fills:
+        if n0 not in deltas or n1 not in deltas:
+            raise TranslationError(f'_thin.cpp: unknown delta table {n0}/{n1}')
+        d0, d1 = deltas[n0], deltas[n1]
+        if not (len(d0) == len(d1) == len(boolvals) == esize):
+            raise TranslationError('_thin.cpp: table lengths differ from Element_Size')
+        fl = flip == 'true'
+        elems.append([(a, b, (not v) if fl else v) for a, b, v in zip(d0, d1, boolvals)])
+    return dict(boolvals=boolvals, deltas=deltas, fills=[(f[1] == 'true', f[2], f[3]) for f in fills], elems=elems)
+
+
+def extract_euler(repo: Path):
+    """numerators/denominator of `_euler_lookup4/8` and the weights `_powers` of euler.py"""
+    tree = ast.parse((repo / 'mahotas' / 'euler.py').read_text())
+
+    def lookup(name):
+        v = _py_assign(tree, name)
+        # np.array([...]) / 4.
+        if not (isinstance(v, ast.BinOp) and isinstance(v.op, ast.Div) and isinstance(v.right, ast.Constant)
+                and isinstance(v.left, ast.Call) and getattr(v.left.func, 'attr', '') == 'array'):
+            raise TranslationError(f'euler.py: {name} is no longer np.array([...])/const')
+        den = v.right.value
+        if den != int(den) or int(den) <= 0:
+            raise TranslationError(f'euler.py: {name}: denominator {den!r}')
+        try:
+            nums = [int(ast.literal_eval(e)) for e in v.left.args[0].elts]
+        except Exception as e:
+            raise TranslationError(f'euler.py: {name}: {e}')
+        return nums, int(den)
+    l4, d4 = lookup('_euler_lookup4')
+    l8, d8 = lookup('_euler_lookup8')
+    if d4 != d8:
+        raise TranslationError('euler.py: the two look-up tables have different denominators')
+    pv = _py_assign(tree, '_powers')
+    try:
+        powers = ast.literal_eval(pv.args[0])
+        powers = [[int(x) for x in row] for row in powers]
+    except Exception as e:
+        raise TranslationError(f'euler.py: _powers: {e}')
+    return dict(lookup4=l4, lookup8=l8, den=d4, powers=powers)
+
+
+def _lean_bool(b):
+    return 'true' if b else 'false'
+
+
+def c15_block(repo: Path):
+    th = extract_thin(repo)
+    eu = extract_euler(repo)
+    s = ['/-! ### C15: thinning templates (`_thin.cpp`) and Euler bit-quad tables (`euler.py`) -/', '',
+         '/-- `boolvals` of `_thin.cpp` -/',
+         'def thinBoolvals : List Bool := [' + ', '.join(_lean_bool(b) for b in th['boolvals']) + ']']
+    for name in sorted(th['deltas']):
+        s.append(f'def thin_{name} : List Int := ' + lean_list(th['deltas'][name]))
+    s += ['/-- the `fill_data(array, elems[i], flip, delta0, delta1)` calls of `py_thin`, in order -/',
+          'def thinFills : List (Bool × List Int × List Int) := [' + ', '.join(
+              f'({_lean_bool(fl)}, thin_{a}, thin_{b})' for fl, a, b in th['fills']) + ']',
+          '/-- the eight hit-or-miss elements in pass order: (row offset, column offset, required value) -/',
+          'def thinElems : List (List (Int × Int × Bool)) := [']
+    rows = []
+    for e in th['elems']:
+        rows.append('  [' + ', '.join(f'({a}, {b}, {_lean_bool(v)})' for a, b, v in e) + ']')
+    s.append((',' + chr(10)).join(rows) + ']')
+    s += ['',
+          '/-- numerators of `_euler_lookup4` (the table is this list divided by `eulerDen`) -/',
+          'def eulerLookup4 : List Int := ' + lean_list(eu['lookup4']),
+          '/-- numerators of `_euler_lookup8` -/',
+          'def eulerLookup8 : List Int := ' + lean_list(eu['lookup8']),
+          f'def eulerDen : Nat := {eu["den"]}',
+          '/-- `_powers` (row major): weight of quad pixel (i, j) in the table index -/',
+          'def eulerPowers : List (List Nat) := [' + ', '.join(lean_list(r) for r in eu['powers']) + ']', '']
+    return s, dict(thin_elems=len(th['elems']), euler_tables=2)
+
 
 def lean_list(xs):
     return '[' + ', '.join(str(x) for x in xs) + ']'
@@ -299,10 +408,13 @@ def generate(repo: Path, outdir: Path) -> dict:
     tex = extract_texture(repo)
     fact = extract_factorials(repo)
     s += lean_texture(tex, fact)
+    c15_lines, c15_info = c15_block(repo)
+    s += c15_lines
     s += ['end Mahotas.Generated', '']
     changed = _write_if_changed(outdir / 'Tables.lean', '\n'.join(s))
     return dict(tables_changed=changed, modes=len(py), translate_sizes=len(ts), colour_constants=len(col),
-                directions_2d=len(tex['_2d_deltas']), directions_3d=len(tex['_3d_deltas']), factorials=len(fact))
+                directions_2d=len(tex['_2d_deltas']), directions_3d=len(tex['_3d_deltas']), factorials=len(fact),
+                **c15_info)
 
 
 if __name__ == '__main__':
